@@ -179,6 +179,20 @@ def impl_eval(case):
                 y3, m3 = make_obj(case).value(np.array(buf))
                 if not (np.array_equal(np.asarray(y2), np.asarray(y3), equal_nan=True) and np.array_equal(np.asarray(m2), np.asarray(m3))):
                     hist = 'value() of a work array re-ordered in place differs from the same points in a fresh array / fresh object'
+                # second calling convention: the action matrix of the (sorted) points handed over by the caller
+                if hist is None:
+                    pre = b.action(np.sort(buf))
+                    if not isinstance(pre[0], int):
+                        y4, m4 = b.value(buf, action=pre[0], lower=pre[1], upper=pre[2])
+                        if not (np.array_equal(np.asarray(y4), np.asarray(y3), equal_nan=True) and np.array_equal(np.asarray(m4), np.asarray(m3))):
+                            hist = 'value(x, action=A, lower=L, upper=U) with A, L, U = action(sort(x)) differs from value(x) (points not in increasing order)'
+                # evaluations at another precision first (float32 points, then the float64 points) on one object
+                if hist is None:
+                    bb = make_obj(case)
+                    bb.value(buf.astype('f4'))
+                    y5, m5 = bb.value(buf)
+                    if not (np.array_equal(np.asarray(y5), np.asarray(y3), equal_nan=True) and np.array_equal(np.asarray(m5), np.asarray(m3))):
+                        hist = 'value() at float64 points after an evaluation at float32 points on the same object differs from a fresh object'
         out = {'indx': [int(i) for i in indx], 'bf': bfv,
                'action': not isinstance(act[0], int),
                'lower': [] if isinstance(act[0], int) else [int(v) for v in act[1]],
